@@ -97,10 +97,11 @@ class Sched:
 class Stepwise:
     """storage wrapper: each public call (and the listed private ones) is preceded by a scheduling point"""
 
-    def __init__(self, inner, sched, private=()):
+    def __init__(self, inner, sched, private=(), only=None):
         self._i = inner
         self._s = sched
         self._private = set(private)
+        self._only = None if only is None else set(only)     # if given: scheduling points only before these calls (the others commute)
 
     def __getattr__(self, n):
         a = getattr(self._i, n)
@@ -109,7 +110,7 @@ class Stepwise:
 
         def f(*args, **kw):
             th = threading.current_thread()
-            if th is not threading.main_thread() and not getattr(th, "no_yield", False):
+            if th is not threading.main_thread() and not getattr(th, "no_yield", False) and (self._only is None or n in self._only):
                 self._s.yield_()
             return a(*args, **kw)
         return f
